@@ -1,6 +1,7 @@
 /- Driver commands for the static certificates. -/
 import FfcxModel.LNodes.Wire
 import FfcxModel.LNodes.Static
+import FfcxModel.LNodes.Scoped
 
 namespace Ffcx.Driver
 open Ffcx Ffcx.LNodes
@@ -23,5 +24,16 @@ def handleMentions (args : List Sexp) : Except String Sexp := do
     let ns ← names.mapM Sexp.asAtom
     return .list (.atom "ok" :: ns.map (fun n => Sexp.ofBool (mentionsS n s)))
   | _ => throw "mentions: expected (mentions stmt name…)"
+
+/-- `(scoped stmt)` → `(ok)` | `(err undeclared n)` | `(err redeclared n)` -/
+def handleScoped (args : List Sexp) : Except String Sexp := do
+  match args with
+  | [stmt] =>
+    let s ← readStmt stmt
+    match scopedKernel s with
+    | .ok _ => return .list [.atom "ok"]
+    | .error (.undeclared n) => return .list [.atom "err", .atom "undeclared", .atom n]
+    | .error (.redeclared n) => return .list [.atom "err", .atom "redeclared", .atom n]
+  | _ => throw "scoped: expected (scoped stmt)"
 
 end Ffcx.Driver
